@@ -135,6 +135,12 @@ def targeted():
             sc("move-waitlist-%s-%s-%s" % (who, val, to), [{"op": "block", "txs": [{"id": "t1", "type": "MoveStake", "from": who, "args": {"from": frm, "to": to, "coin": "BIP", "value": val}}]},
                                                             {"op": "skip", "n": 176, "quiet": True}, {"op": "skip", "n": 4}])
         sc("unbond-waitlist-%s-%s" % (who, val), [{"op": "block", "txs": [{"id": "t1", "type": "Unbond", "from": who, "args": {"pub": frm, "coin": "BIP", "value": val}}]}, {"op": "skip", "n": 3}])
+    # who may change a candidate's settings (C05): v2's owner is o2, its control address a6; commission 20, edits within +-10 are well-formed
+    for who in ("a6", "o2", "a1", "o3"):
+        sc("commission-by-%s" % who, [{"op": "block", "txs": [{"id": "t1", "type": "EditCandidateCommission", "from": who, "args": {"pub": "v2", "comm": 25}}]}, {"op": "skip", "n": 2}])
+        sc("edit-candidate-by-%s" % who, [{"op": "block", "txs": [{"id": "t1", "type": "EditCandidate", "from": who, "args": {"pub": "v2", "reward": who, "owner": who, "control": who}}]}, {"op": "skip", "n": 2}])
+        sc("switch-by-%s" % who, [{"op": "block", "txs": [{"id": "t1", "type": "SetCandidateOff", "from": who, "args": {"pub": "v2"}}]},
+                                  {"op": "block", "txs": [{"id": "t2", "type": "SetCandidateOn", "from": who, "args": {"pub": "v2"}}]}, {"op": "skip", "n": 2}])
     # competing proposals of every vote kind, in both orders of creation (the first vote creates the proposal)
     def vote(kind, v, what):
         args = {"pub": v, "height": "h+2"}
